@@ -48,6 +48,21 @@ typedef StylesheetExecutionContext::GetCachedString     GetCachedString;
 
 
 
+// The attributes of an attribute set are added before the literal attributes
+// (and anything else) of the element that uses the set, so the prefixes those
+// will rely on are not yet in use on the pending element.
+inline bool
+isAttributeSetMember(const ElemTemplateElement&     theElement)
+{
+    const ElemTemplateElement* const    theParent =
+        theElement.getParentNodeElem();
+
+    return theParent != 0 &&
+           theParent->getXSLToken() == StylesheetConstructionContext::ELEMNAME_ATTRIBUTE_SET;
+}
+
+
+
 ElemAttribute::ElemAttribute(
             StylesheetConstructionContext&  constructionContext,
             Stylesheet&                     stylesheetTree,
@@ -237,13 +252,15 @@ ElemAttribute::startElement(StylesheetExecutionContext& executionContext) const
 
                         // OK, make sure that the prefix provided maps to
                         // the same namespace as the one the user requested,
-                        // and see if it's in use...
+                        // and see if it's in use, or may still come into use
+                        // on the pending element...
                         const XalanDOMString* const theNamespace =
                             executionContext.getResultNamespaceForPrefix(newPrefix);
 
                         if (theNamespace != 0 &&
                             equals(*theNamespace, attrNameSpace) == false &&
-                            executionContext.isPendingResultPrefix(newPrefix) == true)
+                            (executionContext.isPendingResultPrefix(newPrefix) == true ||
+                             isAttributeSetMember(*this) == true))
                         {
                             // It doesn't, so we'll need to manufacture a
                             // prefix.
@@ -549,13 +566,15 @@ ElemAttribute::execute(StylesheetExecutionContext&  executionContext) const
 
                         // OK, make sure that the prefix provided maps to
                         // the same namespace as the one the user requested,
-                        // and see if it's in use...
+                        // and see if it's in use, or may still come into use
+                        // on the pending element...
                         const XalanDOMString* const theNamespace =
                             executionContext.getResultNamespaceForPrefix(newPrefix);
 
                         if (theNamespace != 0 &&
                             equals(*theNamespace, attrNameSpace) == false &&
-                            executionContext.isPendingResultPrefix(newPrefix) == true)
+                            (executionContext.isPendingResultPrefix(newPrefix) == true ||
+                             isAttributeSetMember(*this) == true))
                         {
                             // It doesn't, so we'll need to manufacture a
                             // prefix.
